@@ -269,11 +269,7 @@ def run_instance(modname, hname, params, opts, conn=None):
 
             # vacuity: assumptions + axioms + path condition must be satisfiable
             ts = time.time()
-            s = z3.Solver()
-            s.add(env.axioms)
-            s.add([a for _, a in env.assumptions])
-            s.add(env.pc)
-            r = z3_check(s, min(timeout_ms, 15000))
+            r, _eng, _s = decide(list(env.axioms) + [a for _, a in env.assumptions] + list(env.pc), min(timeout_ms, 24000), order=["nla", "nlsat"])
             vac = {"name": "<assumptions-satisfiable path %d>" % res["paths"], "result": r, "t": round(time.time() - ts, 3), "kind": "vacuity"}
             vacs.append((vac, env))
             res["obligations"].append(vac)
@@ -347,7 +343,10 @@ def run_instance(modname, hname, params, opts, conn=None):
         if envs and res["error"] is None:
             rng = random.Random(seed * 7919 + hash(hname) % 1000)
             sampler = getattr(harness, "sampler", None)
-            for k in range(opts.get("validation_points", 2)):
+            want_pts = opts.get("validation_points", 2)
+            for k in range(want_pts * 6):
+                if res["validation"]["points"] - res["validation"]["rejected"] >= want_pts:
+                    break
                 res["validation"]["points"] += 1
                 try:
                     values = sampler(rng, **params) if sampler else None
@@ -373,6 +372,13 @@ def run_instance(modname, hname, params, opts, conn=None):
                     res["validation"]["rejected"] += 1
                     continue
                 env, val = chosen
+                try:
+                    if not all(xa.eval_term(a_, val) for _, a_ in env.assumptions):
+                        res["validation"]["rejected"] += 1
+                        continue
+                except (KeyError, ZeroDivisionError, OverflowError):
+                    res["validation"]["rejected"] += 1
+                    continue
                 # a concrete point satisfying every assumption of this path is a witness of non-vacuity
                 for vac, venv in vacs:
                     if venv is env and vac["result"] == "unknown":
